@@ -141,7 +141,7 @@ def ill_typed_dump(ctx, rng, node, prog):
 
 
 def run_case(ctx, rng, idx):
-    node = gen_node(rng, ctx.tier)
+    node = gen_node(rng, ctx.tier, with_models=True)
     prog = Program(node)
     values, bag = data_bag(rng, node, n_valid=3, n_mut=12, n_pool=25)
     ctx.count("programs")
